@@ -4,5 +4,6 @@ CONSTANTS
   NSources = 2
   CodecLists <- Lists2
   SubBox = 2
+  Nested = 0
 INVARIANT InvStreamAlgorithm
 CHECK_DEADLOCK FALSE
